@@ -325,6 +325,7 @@ static void ptg_dump_events(int64_t cap)
 static int ptg_timeout_ms = 20000, ptg_init_timeout_ms = 120000;
 static parsec_taskpool_t *ptg_tp; static ptg_initial_fn ptg_ini; static const char *ptg_keyfile;
 static void ptg_probe_keys(parsec_taskpool_t *tp, const char *file);
+static void ptg_dump_batches(void);
 static volatile int ptg_done;
 static ptg_initial_fn ptg_inited;
 static void *ptg_watchdog(void *arg)
@@ -352,6 +353,7 @@ static void *ptg_watchdog(void *arg)
         } else fprintf(ptg_out, "#not-initialised\n");
         ptg_dump_events(4000);
         fprintf(ptg_out, "end => hang %lld %lld\n", (long long)b, (long long)e);
+        ptg_dump_batches();
         fflush(ptg_out);
         _exit(3);
     }
